@@ -1,6 +1,7 @@
 //! implrun: executes case files against the real cstree (path dependency on /repo/cstree).
 //! One case per input line, one canonical result line per case on stdout.
 mod builder_cases;
+mod green_cases;
 mod intern_cases;
 mod red_cases;
 mod interners;
@@ -40,6 +41,8 @@ fn run_line(line: &str) -> String {
     match kind {
         "B" => builder_cases::run_case(&args),
         "H" => builder_cases::run_history(&args),
+        "G" => green_cases::run_g(&args),
+        "Y" => green_cases::run_y(&args),
         "I" => intern_cases::run_case(&args),
         "N" => red_cases::run_case(&args),
         "P" => intern_cases::run_concurrent(&args),
